@@ -11,24 +11,43 @@
 // Every HTTP exchange becomes one step (operation, projected observation); the model replays the
 // steps in linearisation order.  The direct oracle evaluates the property's sentences on what the
 // client-side verifiers said about the observed answers, independently of the model.
+//
+// Two things are derived INDEPENDENTLY of the library code the front end itself runs:
+//   - the RFC 6962 leaf of every submission (s3.4 MerkleTreeLeaf, hand-encoded) and the SCT
+//     signature input (s3.2), from the harness's own PKI: for a precertificate the TBSCertificate
+//     is the one of the FINAL certificate the issuing CA signs for the same contents (no poison, no
+//     SCT list), and the issuer key hash is that CA's - also when the precertificate was signed by a
+//     precertificate signing certificate.  The SCT must verify over it (crypto/ecdsa), the leaf hash
+//     must be found by get-proof-by-hash, and the final certificate with the SCT embedded must
+//     verify through ctutil (embedded route).
+//   - the log's signer is wrapped (ctfeenv.Options.WrapSigner): requests can be held INSIDE
+//     signer.Sign or made to fail there.  A dedicated stream overlaps several get-sth requests for
+//     a new tree head inside the signer (and fails some, then retries); concurrent rounds are
+//     either "parallel" (as before, with a slow signer) or "stepwise" (every backend RPC and every
+//     signer call is a scheduling point, one request runs at a time, order drawn from the PRNG).
+//     Every STH served with 200 must verify under the log key and report the backend's root.
 package main
 
 import (
 	"bytes"
 	"context"
 	"crypto"
+	"crypto/ecdsa"
 	"crypto/sha256"
+	stdx509 "crypto/x509"
 	"encoding/base64"
+	"encoding/binary"
 	"encoding/json"
+	"errors"
 	"flag"
 	"fmt"
-	"github.com/google/certificate-transparency-go/x509/pkix"
 	"io"
 	"math/big"
 	"math/rand"
 	"net/http"
 	"net/http/httptest"
 	"net/url"
+	"runtime"
 	"sort"
 	"strconv"
 	"strings"
@@ -36,11 +55,14 @@ import (
 	"time"
 
 	ct "github.com/google/certificate-transparency-go"
+	ctasn1 "github.com/google/certificate-transparency-go/asn1"
 	"github.com/google/certificate-transparency-go/client"
 	"github.com/google/certificate-transparency-go/ctutil"
 	"github.com/google/certificate-transparency-go/jsonclient"
+	cttls "github.com/google/certificate-transparency-go/tls"
 	"github.com/google/certificate-transparency-go/trillian/ctfe"
 	ctx509 "github.com/google/certificate-transparency-go/x509"
+	"github.com/google/certificate-transparency-go/x509/pkix"
 	"github.com/google/trillian"
 	"github.com/transparency-dev/merkle/proof"
 	"github.com/transparency-dev/merkle/rfc6962"
@@ -90,6 +112,66 @@ type subject struct {
 	submit [][]byte // chain as posted
 	path   [][]byte // expected validated path after the leaf (issuer ... root)
 	kind   string
+	// reference data for a precertificate, from the harness's PKI (not from the library under test):
+	// the CA that issues the final certificate, the contents it signs, the TBSCertificate of that
+	// final certificate without SCT list (= the RFC 6962 s3.2 PreCert.tbs_certificate) and
+	// SHA-256 of that CA's SubjectPublicKeyInfo
+	finCA   *pki.Entity
+	finOpts pki.Opts
+	refTBS  []byte
+	refIKH  []byte
+}
+
+// reference fills the RFC 6962 reference data of a precertificate issued with options o: the real
+// CA ca issues the final certificate for the same contents (same serial, key, names, validity;
+// no poison), parsed with the standard library.
+func (w *world) reference(s *subject, o pki.Opts, ca *pki.Entity) *subject {
+	fo := o
+	fo.ExtraExt = nil
+	for _, e := range o.ExtraExt {
+		if !e.Id.Equal(pki.OIDPoison) {
+			fo.ExtraExt = append(fo.ExtraExt, e)
+		}
+	}
+	fin := pki.Issue(fo, ca)
+	fc, err := stdx509.ParseCertificate(fin.DER)
+	if err != nil {
+		panic(fmt.Sprintf("crypto/x509 does not parse the final certificate of %s: %v", s.name, err))
+	}
+	cc, err := stdx509.ParseCertificate(ca.DER)
+	if err != nil {
+		panic(err)
+	}
+	ikh := sha256.Sum256(cc.RawSubjectPublicKeyInfo)
+	s.finCA, s.finOpts, s.refTBS, s.refIKH = ca, fo, fc.RawTBSCertificate, ikh[:]
+	return s
+}
+
+func put24(b []byte, x []byte) []byte {
+	return append(append(b, byte(len(x)>>16), byte(len(x)>>8), byte(len(x))), x...)
+}
+
+// refEntry: entry_type and signed_entry of RFC 6962 s3.2 / s3.4 for a submission
+func (s *subject) refEntry(b []byte) []byte {
+	if !s.pre {
+		return put24(append(b, 0, 0), s.der) // x509_entry: ASN.1Cert<1..2^24-1>
+	}
+	b = append(append(b, 0, 1), s.refIKH...) // precert_entry: issuer_key_hash[32], TBSCertificate<1..2^24-1>
+	return put24(b, s.refTBS)
+}
+
+// refLeaf is the MerkleTreeLeaf of RFC 6962 s3.4 (v1, timestamped_entry), hand-encoded.
+func (s *subject) refLeaf(ts uint64, ext []byte) []byte {
+	b := binary.BigEndian.AppendUint64([]byte{0, 0}, ts)
+	b = s.refEntry(b)
+	return append(append(b, byte(len(ext)>>8), byte(len(ext))), ext...)
+}
+
+// refSCTInput is the digitally-signed struct of RFC 6962 s3.2 (v1, certificate_timestamp), hand-encoded.
+func (s *subject) refSCTInput(ts uint64, ext []byte) []byte {
+	b := binary.BigEndian.AppendUint64([]byte{0, 0}, ts)
+	b = s.refEntry(b)
+	return append(append(b, byte(len(ext)>>8), byte(len(ext))), ext...)
 }
 
 func (w *world) nextSerial() int64 { w.serial++; return w.serial }
@@ -103,12 +185,15 @@ func (w *world) leaf(r *rand.Rand, n int) *subject {
 		e := pki.Issue(pki.Opts{CN: fmt.Sprintf("direct%d.example", n), KeyIdx: 10 + r.Intn(3)}, w.rootA)
 		return &subject{name: e.Cert.Subject.CommonName, der: e.DER, submit: [][]byte{e.DER, w.rootA.DER}, path: [][]byte{w.rootA.DER}, kind: "x509-direct"}
 	case k < 8: // precertificate under the intermediate
-		e := pki.Issue(pki.Opts{CN: fmt.Sprintf("pre%d.example", n), KeyIdx: 10 + r.Intn(3), ExtraExt: []pkix.Extension{pki.PoisonExt()}}, w.interA)
-		return &subject{name: e.Cert.Subject.CommonName, pre: true, der: e.DER, submit: [][]byte{e.DER, w.interA.DER}, path: [][]byte{w.interA.DER, w.rootA.DER}, kind: "precert"}
+		o := pki.Opts{CN: fmt.Sprintf("pre%d.example", n), KeyIdx: 10 + r.Intn(3), ExtraExt: []pkix.Extension{pki.PoisonExt()}, Serial: bigInt(500000 + int64(n))}
+		e := pki.Issue(o, w.interA)
+		return w.reference(&subject{name: e.Cert.Subject.CommonName, pre: true, der: e.DER, submit: [][]byte{e.DER, w.interA.DER}, path: [][]byte{w.interA.DER, w.rootA.DER}, kind: "precert"}, o, w.interA)
 	default: // precertificate signed by a precertificate signing certificate
-		e := pki.Issue(pki.Opts{CN: fmt.Sprintf("prei%d.example", n), KeyIdx: 10 + r.Intn(3), ExtraExt: []pkix.Extension{pki.PoisonExt()}}, w.preIssuer)
-		return &subject{name: e.Cert.Subject.CommonName, pre: true, der: e.DER, submit: [][]byte{e.DER, w.preIssuer.DER, w.interA.DER},
-			path: [][]byte{w.preIssuer.DER, w.interA.DER, w.rootA.DER}, kind: "precert-preissuer"}
+		// the final certificate is issued by the intermediate itself, never by the signing certificate
+		o := pki.Opts{CN: fmt.Sprintf("prei%d.example", n), KeyIdx: 10 + r.Intn(3), ExtraExt: []pkix.Extension{pki.PoisonExt()}, Serial: bigInt(500000 + int64(n))}
+		e := pki.Issue(o, w.preIssuer)
+		return w.reference(&subject{name: e.Cert.Subject.CommonName, pre: true, der: e.DER, submit: [][]byte{e.DER, w.preIssuer.DER, w.interA.DER},
+			path: [][]byte{w.preIssuer.DER, w.interA.DER, w.rootA.DER}, kind: "precert-preissuer"}, o, w.interA)
 	}
 }
 
@@ -126,7 +211,7 @@ func (w *world) twins(n int) (*subject, *subject) {
 	mk := func() *subject {
 		o := pki.Opts{CN: fmt.Sprintf("twin%d.example", n), KeyIdx: 13, ExtraExt: []pkix.Extension{pki.PoisonExt()}, Serial: bigInt(900000 + int64(n))}
 		e := pki.Issue(o, w.interA)
-		return &subject{name: e.Cert.Subject.CommonName, pre: true, der: e.DER, submit: [][]byte{e.DER, w.interA.DER}, path: [][]byte{w.interA.DER, w.rootA.DER}, kind: "precert-twin"}
+		return w.reference(&subject{name: e.Cert.Subject.CommonName, pre: true, der: e.DER, submit: [][]byte{e.DER, w.interA.DER}, path: [][]byte{w.interA.DER, w.rootA.DER}, kind: "precert-twin"}, o, w.interA)
 	}
 	a, b := mk(), mk()
 	return a, b
@@ -152,12 +237,87 @@ type exchange struct {
 	body    []byte
 	paniced bool
 	now     time.Time // front-end clock at the time of the request
+	// what the log's signer saw of this request (written by the request's own goroutine)
+	signCalls  int
+	signFailed bool // the harness made a signer call of this request return an error
 }
 
 type memRT struct {
-	env *ctfeenv.Env
-	mu  sync.Mutex
-	exs []*exchange
+	env   *ctfeenv.Env
+	mu    sync.Mutex
+	exs   []*exchange
+	byTag map[callTag]*exchange
+	cur   sync.Map // goroutine id -> *exchange being served on that goroutine
+}
+
+// goid is the id of the calling goroutine.  The handlers run synchronously on the goroutine that
+// calls RoundTrip, and crypto.Signer.Sign carries no context: this is how a signer call is
+// attributed to the request (and worker) it belongs to.
+func goid() uint64 {
+	var buf [64]byte
+	f := strings.Fields(string(buf[:runtime.Stack(buf[:], false)]))
+	if len(f) < 2 || f[0] != "goroutine" {
+		panic("unexpected runtime.Stack header")
+	}
+	id, err := strconv.ParseUint(f[1], 10, 64)
+	if err != nil {
+		panic(err)
+	}
+	return id
+}
+
+// current returns the exchange being served on the calling goroutine (nil: none).
+func (t *memRT) current() *exchange {
+	if v, ok := t.cur.Load(goid()); ok {
+		return v.(*exchange)
+	}
+	return nil
+}
+
+func (t *memRT) exchangeOf(tag callTag) *exchange {
+	t.mu.Lock()
+	defer t.mu.Unlock()
+	return t.byTag[tag]
+}
+
+// hookedSigner is the log's signer as the instance sees it: the real key behind a hook that can
+// hold a call (slow or remote signer, HSM) or make it fail.
+type hookedSigner struct {
+	inner  crypto.Signer
+	mu     sync.Mutex
+	before func(ex *exchange) error // nil: pass through
+	rt     *memRT
+}
+
+var errSigner = errors.New("c06 harness: signer unavailable")
+
+func (s *hookedSigner) Public() crypto.PublicKey { return s.inner.Public() }
+
+func (s *hookedSigner) Sign(rnd io.Reader, digest []byte, opts crypto.SignerOpts) ([]byte, error) {
+	s.mu.Lock()
+	f, rt := s.before, s.rt
+	s.mu.Unlock()
+	if rt != nil {
+		ex := rt.current()
+		if ex != nil {
+			ex.signCalls++
+		}
+		if f != nil {
+			if err := f(ex); err != nil {
+				if ex != nil {
+					ex.signFailed = true
+				}
+				return nil, err
+			}
+		}
+	}
+	return s.inner.Sign(rnd, digest, opts)
+}
+
+func (s *hookedSigner) set(f func(ex *exchange) error) {
+	s.mu.Lock()
+	s.before = f
+	s.mu.Unlock()
 }
 
 func (t *memRT) RoundTrip(req *http.Request) (*http.Response, error) {
@@ -171,7 +331,14 @@ func (t *memRT) RoundTrip(req *http.Request) (*http.Response, error) {
 	t.mu.Lock()
 	ex.id = len(t.exs)
 	t.exs = append(t.exs, ex)
+	if t.byTag == nil {
+		t.byTag = map[callTag]*exchange{}
+	}
+	t.byTag[tag] = ex
 	t.mu.Unlock()
+	g := goid()
+	t.cur.Store(g, ex)
+	defer t.cur.Delete(g)
 	w := httptest.NewRecorder()
 	h, ok := t.env.Inst.Handlers[req.URL.Path]
 	if !ok {
@@ -210,6 +377,7 @@ type submission struct {
 	chainP []*ctx509.Certificate // parsed validated path incl. leaf
 	first  *submission           // the accepted submission that created the stored leaf (itself if fresh)
 	leafH  [32]byte
+	refH   []byte // SHA-256(0x00 || RFC 6962 leaf derived from the harness's PKI), see subject.refLeaf
 }
 
 type hist struct {
@@ -238,6 +406,8 @@ type hist struct {
 	pool      []*subject
 	inRound   bool
 	stray     *pki.Entity
+	signer    *hookedSigner
+	sthBias   bool // concurrent round in which most operations are get-sth
 }
 
 func (h *hist) fail(f string, a ...interface{}) {
@@ -322,10 +492,66 @@ func (h *hist) submit(tag callTag, s *subject, wrongEndpoint bool) *submission {
 		h.fail("ctutil.LeafHash for %s: %v", s.name, lerr)
 	}
 	sb.leafH = lh
+	// the same two facts from the certificate and the SCT ALONE, without the library's chain
+	// handling: RFC 6962 s3.2 / s3.4 hand-encoded over the harness's own reference data (for a
+	// precertificate: the final certificate's TBSCertificate and the key of the CA that issues it)
+	if !h.refSCTVerifies(s, sct) {
+		h.fail("SCT for %s (%s) does not verify over the RFC 6962 s3.2 input built from the final certificate and its issuer's key", s.name, s.kind)
+	}
+	sb.refH = h.log.H.Sum(append([]byte{0}, s.refLeaf(sct.Timestamp, sct.Extensions)...))
+	if !bytes.Equal(sb.refH, lh[:]) {
+		h.fail("leaf hash for %s (%s): RFC 6962 s3.4 leaf built from the final certificate and its issuer's key differs from ctutil.LeafHash on the submitted chain", s.name, s.kind)
+	}
 	h.mu.Lock()
 	h.accepted = append(h.accepted, sb)
 	h.mu.Unlock()
 	return sb
+}
+
+// refSCTVerifies checks the SCT with crypto/ecdsa over the hand-encoded signature input.
+func (h *hist) refSCTVerifies(s *subject, sct *ct.SignedCertificateTimestamp) bool {
+	pub, ok := h.w.logKey.Public().(*ecdsa.PublicKey)
+	if !ok {
+		panic("the harness's log key is ECDSA")
+	}
+	id := sha256.Sum256(h.w.pubDER)
+	if sct.SCTVersion != ct.V1 || sct.LogID.KeyID != id || sct.Signature.Algorithm.Hash != cttls.SHA256 || sct.Signature.Algorithm.Signature != cttls.ECDSA {
+		return false
+	}
+	d := sha256.Sum256(s.refSCTInput(sct.Timestamp, sct.Extensions))
+	return ecdsa.VerifyASN1(pub, d[:], sct.Signature.Signature)
+}
+
+// embeddedRoute: the CA issues the final certificate with the SCT embedded; a TLS client has only
+// that certificate, its issuer and the SCT.  ctutil must verify the SCT for it and derive the
+// leaf hash that get-proof-by-hash finds.  Main goroutine only (pki.Issue).
+func (h *hist) embeddedRoute(sb *submission) {
+	s := sb.sub
+	sctBytes, err := cttls.Marshal(*sb.sct)
+	if err != nil {
+		h.fail("SCT of %s does not serialise: %v", s.name, err)
+		return
+	}
+	list, err := cttls.Marshal(ctx509.SignedCertificateTimestampList{SCTList: []ctx509.SerializedSCT{{Val: sctBytes}}})
+	if err != nil {
+		panic(err)
+	}
+	val, err := ctasn1.Marshal(list)
+	if err != nil {
+		panic(err)
+	}
+	o := s.finOpts
+	o.ExtraExt = append(append([]pkix.Extension{}, o.ExtraExt...), pkix.Extension{Id: pki.OIDSCTList, Value: val})
+	fin := pki.Issue(o, s.finCA)
+	chain := []*ctx509.Certificate{fin.Cert, s.finCA.Cert}
+	if err := ctutil.VerifySCT(h.w.logKey.Public(), chain, sb.sct, true); err != nil {
+		h.fail("SCT of %s (%s) embedded in the final certificate does not verify (ctutil.VerifySCT): %v", s.name, s.kind, err)
+	}
+	lh, err := ctutil.LeafHash(chain, sb.sct, true)
+	if err != nil || !bytes.Equal(lh[:], sb.refH) {
+		h.fail("leaf hash of the final certificate of %s (%s) with embedded SCT (ctutil.LeafHash) is not the RFC 6962 leaf hash: %v", s.name, s.kind, err)
+	}
+	h.tagf("audit:embedded-sct")
 }
 
 func (h *hist) submitBad(tag callTag, kind string, pre bool) {
@@ -363,6 +589,27 @@ func (h *hist) getSTH(tag callTag) *ct.SignedTreeHead {
 	h.sths = append(h.sths, sth)
 	h.mu.Unlock()
 	return sth
+}
+
+// getSTHSignerMayFail is a get-sth during which the harness makes the signer fail: an error answer
+// is expected when the signer was reached; a 200 (served from the signature cache without the
+// signer) must be a verifying STH like any other.
+func (h *hist) getSTHSignerMayFail(tag callTag) {
+	sth, err := h.lc.GetSTH(h.ctx(tag))
+	ex := h.rt.exchangeOf(tag)
+	if err != nil {
+		if ex == nil || !ex.signFailed {
+			h.fail("get-sth failed or did not verify although the signer was not made to fail: %v", err)
+		} else if ex.status == 200 {
+			h.fail("get-sth answered 200 after the signer failed, and the STH does not verify: %v", err)
+		} else {
+			h.tagf("observed:get-sth-error-after-signer-failure")
+		}
+		return
+	}
+	h.mu.Lock()
+	h.sths = append(h.sths, sth)
+	h.mu.Unlock()
 }
 
 // consistency asks for (first, second); when both are within the tree it must be answered and verify.
@@ -477,6 +724,11 @@ func (h *hist) fillPool(n int) {
 // op performs one random operation; rr is the PRNG stream of the calling worker.
 func (h *hist) op(rr *rand.Rand, tag callTag) {
 	size := uint64(h.log.Size())
+	if h.sthBias && rr.Intn(100) < 55 { // a burst of get-sth traffic while the tree head changes
+		h.tagf("op:get-sth")
+		h.getSTH(tag)
+		return
+	}
 	switch k := rr.Intn(100); {
 	case k < 22:
 		h.tagf("op:add-fresh")
@@ -623,13 +875,21 @@ func (h *hist) verifyInclusion(tag callTag, sb *submission, size uint64, mustFin
 // PRNG: rounds of (wait until every worker is blocked at its next RPC or has finished; release
 // the blocked ones one by one in a random permutation).  Between rounds the workers run in
 // parallel (handler code before / after the RPC, signing, JSON, the signature cache).
+//
+// stepwise mode: every signer call is a scheduling point as well (enterKey from the signer hook),
+// and each scheduling round releases exactly ONE blocked worker, drawn from the PRNG, and waits
+// until it blocks again or finishes: one request runs at a time, so the whole execution -
+// including what happens between an RPC and the signer (the signature cache) - is the
+// interleaving the PRNG drew.  A request stays inside signer.Sign for as long as the draw passes
+// it over (a slow signer), while other requests read the new root and consult the cache.
 type gate struct {
-	mu     sync.Mutex
-	cond   *sync.Cond
-	n      int
-	atGate map[int]chan struct{}
-	done   int
-	passed chan struct{}
+	mu       sync.Mutex
+	cond     *sync.Cond
+	n        int
+	atGate   map[int]chan struct{}
+	done     int
+	passed   chan struct{}
+	stepwise bool
 }
 
 type workerKey struct{}
@@ -648,6 +908,10 @@ func (g *gate) enter(ctx context.Context) func() {
 	if v, ok := ctx.Value(workerKey{}).(int); ok {
 		wk = v
 	}
+	return g.enterKey(wk)
+}
+
+func (g *gate) enterKey(wk int) func() {
 	ch := make(chan struct{})
 	g.mu.Lock()
 	g.atGate[wk] = ch
@@ -679,6 +943,9 @@ func (g *gate) schedule(r *rand.Rand) {
 			ws = append(ws, wk)
 		}
 		sort.Ints(ws)
+		if g.stepwise {
+			ws = []int{ws[r.Intn(len(ws))]}
+		}
 		chans := map[int]chan struct{}{}
 		for _, wk := range ws {
 			chans[wk] = g.atGate[wk]
@@ -690,6 +957,103 @@ func (g *gate) schedule(r *rand.Rand) {
 			<-g.passed
 		}
 	}
+}
+
+// ---------------------------------------------------------------- get-sth inside the signer
+
+// sthOverlap: some STH has been served (the signature cache holds its signature); the backend
+// publishes a new tree head; then 1..4 get-sth requests are issued one after the other, each held
+// INSIDE signer.Sign (or finished, if it never reached the signer) before the next one starts, so
+// that they all read the root and consult the cache while the earlier ones are still signing; a
+// sequencing step may fall between two of them; the signer fails for one of them (always, when
+// there is only one); they are released in a drawn order; then the request is retried.  Every STH
+// served with 200 must verify and report the backend's root (getSTH and the emit pass check it);
+// an error answer is accepted only from the request whose signer call was made to fail.
+// Deterministic: nothing here depends on the Go scheduler.
+func (h *hist) sthOverlap(next func() callTag, advance func()) {
+	r := h.r
+	h.tagf("scenario:get-sth-inside-signer")
+	advance()
+	cur := h.getSTH(next())
+	advance()
+	if r.Intn(2) == 0 {
+		h.submit(next(), h.freshSubject(), false)
+	}
+	newHead := func(k int) {
+		ns := uint64(h.clockNS) + uint64(r.Int63n(2e9))
+		if cur != nil && ns/1000000 == cur.Timestamp {
+			ns += 1000000 // a tree head with other bytes even if no leaf is integrated
+		}
+		h.log.Sequence(context.Background(), k, ns)
+		h.tagf("op:sequence-%d", min(k, 4))
+	}
+	newHead(h.log.Queued())
+	n := 1 + r.Intn(4)
+	failIdx, midSeq := -1, -1
+	if n == 1 || r.Intn(3) == 0 {
+		failIdx = r.Intn(n)
+	}
+	if n > 1 && r.Intn(3) == 0 {
+		midSeq = 1 + r.Intn(n-1)
+	}
+	type inflight struct {
+		entered, release, done chan struct{}
+		fail                   bool
+	}
+	var mu sync.Mutex
+	reg := map[callTag]*inflight{}
+	h.signer.set(func(ex *exchange) error {
+		if ex == nil || ex.path != ct.GetSTHPath {
+			return nil
+		}
+		mu.Lock()
+		f := reg[ex.tag]
+		mu.Unlock()
+		if f == nil {
+			return nil
+		}
+		close(f.entered)
+		<-f.release
+		if f.fail {
+			return errSigner
+		}
+		return nil
+	})
+	var fl []*inflight
+	inside := 0
+	for i := 0; i < n; i++ {
+		if i == midSeq {
+			newHead(r.Intn(2))
+		}
+		f := &inflight{entered: make(chan struct{}), release: make(chan struct{}), done: make(chan struct{}), fail: i == failIdx}
+		tag := next()
+		mu.Lock()
+		reg[tag] = f
+		mu.Unlock()
+		fl = append(fl, f)
+		go func() {
+			defer close(f.done)
+			if f.fail {
+				h.getSTHSignerMayFail(tag)
+			} else {
+				h.getSTH(tag)
+			}
+		}()
+		select {
+		case <-f.entered:
+			inside++
+		case <-f.done:
+		}
+	}
+	if inside >= 2 {
+		h.tagf("observed:get-sth-requests-overlap-inside-signer")
+	}
+	for _, i := range r.Perm(n) {
+		close(fl[i].release)
+		<-fl[i].done
+	}
+	h.signer.set(nil)
+	h.getSTH(next()) // the retry / the next request for the same tree head
 }
 
 // ---------------------------------------------------------------- run one history
@@ -706,9 +1070,14 @@ func runHistory(w *world, r *rand.Rand, conc bool, caseNo int) lib.Case {
 	if err := flag.Set("align_getentries", strconv.FormatBool(algn)); err != nil {
 		panic(err)
 	}
-	env, err := ctfeenv.New(ctfeenv.Options{Roots: []*pki.Entity{w.rootA, w.rootB}, Dir: *lib.OutDir, LogKey: w.logKey})
+	var hs *hookedSigner
+	env, err := ctfeenv.New(ctfeenv.Options{Roots: []*pki.Entity{w.rootA, w.rootB}, Dir: *lib.OutDir, LogKey: w.logKey,
+		WrapSigner: func(s crypto.Signer) crypto.Signer { hs = &hookedSigner{inner: s}; return hs }})
 	if err != nil {
 		panic(err)
+	}
+	if hs == nil {
+		panic("ctfeenv did not hand the log's signer to WrapSigner")
 	}
 	clock0 := time.Date(2024, 5, 6, 7, 8, 9, 0, time.UTC).Add(time.Duration(r.Int63n(1e9)))
 	env.Clock.Set(clock0)
@@ -733,6 +1102,7 @@ func runHistory(w *world, r *rand.Rand, conc bool, caseNo int) lib.Case {
 		return lg.GetEntryAndProof(c, q)
 	}
 	rt := &memRT{env: env}
+	hs.rt = rt
 	hc := &http.Client{Transport: rt}
 	lc, err := client.New("https://c06.test"+env.Prefix, hc, jsonclient.Options{PublicKeyDER: w.pubDER})
 	if err != nil {
@@ -740,7 +1110,7 @@ func runHistory(w *world, r *rand.Rand, conc bool, caseNo int) lib.Case {
 	}
 	li := &ctutil.LogInfo{Description: "c06", Client: lc, Verifier: w.verifier, PublicKey: w.pubDER}
 	h := &hist{w: w, r: r, env: env, log: lg, rt: rt, lc: lc, li: li, maxr: maxr, algn: algn, ns0: ns0,
-		subs: map[callTag]*submission{}, conc: conc, tags: map[string]int{}, clockNS: clock0.UnixNano()}
+		subs: map[callTag]*submission{}, conc: conc, tags: map[string]int{}, clockNS: clock0.UnixNano(), signer: hs}
 	h.stray = pki.Issue(pki.Opts{CN: "stray.example", KeyIdx: 12}, w.untrusted)
 
 	call := 0
@@ -774,6 +1144,13 @@ func runHistory(w *world, r *rand.Rand, conc bool, caseNo int) lib.Case {
 			h.op(r, next())
 		}
 		// deliberate corner scenarios (one in three histories each)
+		if r.Intn(3) == 0 { // also in the middle of a history, not only before the audit
+			h.sthOverlap(next, advance)
+			for i, k := 0, r.Intn(6); i < k; i++ {
+				advance()
+				h.op(r, next())
+			}
+		}
 		if r.Intn(3) == 0 {
 			a, b := w.twins(caseNo)
 			advance()
@@ -789,13 +1166,39 @@ func runHistory(w *world, r *rand.Rand, conc bool, caseNo int) lib.Case {
 			h.submit(next(), h.freshSubject(), false)
 		}
 		sequence()
+		if r.Intn(4) != 0 { // the signature cache holds a signature when the rounds begin
+			h.getSTH(next())
+		}
 		rounds := 2 + r.Intn(2)
+		firstStepwise := r.Intn(rounds)
 		for rd := 0; rd < rounds; rd++ {
 			advance() // the clock stands still during a concurrent round
 			nw := 3 + r.Intn(4)
 			h.fillPool(7 * nw) // at most 6 operations per worker
 			h.inRound = true
 			g := newGate(nw + 1)
+			g.stepwise = rd == firstStepwise || r.Intn(2) == 0
+			h.sthBias = r.Intn(2) == 0
+			if g.stepwise {
+				h.tagf("round:stepwise")
+				hs.set(func(ex *exchange) error { // every signer call is a scheduling point
+					if ex != nil {
+						g.enterKey(ex.tag.worker)()
+					}
+					return nil
+				})
+			} else {
+				h.tagf("round:parallel")
+				hs.set(func(ex *exchange) error { // a slow signer; the Go runtime schedules
+					if ex != nil && ex.path == ct.GetSTHPath {
+						time.Sleep(150 * time.Microsecond)
+					}
+					return nil
+				})
+			}
+			if h.sthBias {
+				h.tagf("round:get-sth-burst")
+			}
 			lg.Gate = g.enter
 			var wg sync.WaitGroup
 			seeds := make([]int64, nw+1)
@@ -808,6 +1211,9 @@ func runHistory(w *world, r *rand.Rand, conc bool, caseNo int) lib.Case {
 					defer wg.Done()
 					defer g.finish()
 					rr := rand.New(rand.NewSource(seeds[wk]))
+					if g.stepwise { // one worker at a time from its very first statement
+						g.enterKey(100*(rd+1) + wk)()
+					}
 					nops := 3 + rr.Intn(4)
 					for j := 0; j < nops; j++ {
 						h.op(rr, callTag{worker: 100*(rd+1) + wk, call: j})
@@ -828,8 +1234,13 @@ func runHistory(w *world, r *rand.Rand, conc bool, caseNo int) lib.Case {
 			g.schedule(r)
 			wg.Wait()
 			lg.Gate = nil
-			h.inRound, h.pool = false, nil
+			hs.set(nil)
+			h.inRound, h.pool, h.sthBias = false, nil, false
 		}
+	}
+	// get-sth requests for a new tree head that overlap inside the signer; signer failures and retries
+	for i, k := 0, []int{0, 1, 1, 2}[r.Intn(4)]; i < k; i++ {
+		h.sthOverlap(next, advance)
 	}
 
 	// ---- audit: the property's sentences over everything this history produced
@@ -874,6 +1285,19 @@ func runHistory(w *world, r *rand.Rand, conc bool, caseNo int) lib.Case {
 		// every issued SCT: found by the client's leaf hash, single index, decodes to the submission
 		all, _ := h.fetchAll(next, int64(size))
 		for _, sb := range h.accepted {
+			// the leaf hash derived from certificate + SCT alone (RFC 6962 by hand, reference data
+			// of the harness's PKI) is found in the final tree, with a verifying audit path: when it
+			// equals the library's leaf hash (checked at submission) this is the look-up
+			// verifyInclusion makes below; otherwise look it up on its own
+			if !bytes.Equal(sb.refH, sb.leafH[:]) {
+				h.proofByHash(next(), sb.refH, size, 0)
+			}
+			if sb.sub.pre {
+				h.embeddedRoute(sb)
+				if strings.Contains(sb.sub.kind, "preissuer") {
+					h.tagf("audit:sct-preissuer")
+				}
+			}
 			idx := h.verifyInclusion(next(), sb, size, true)
 			if idx < 0 {
 				continue
@@ -1123,12 +1547,13 @@ func (h *hist) emit(caseNo int) lib.Case {
 			for _, d := range sb.sub.path {
 				chain = append(chain, w.idx(d))
 			}
+			// the model's oracle input (issuer key hash, TBSCertificate) is the REFERENCE pair of the
+			// harness's PKI (final certificate's TBSCertificate, key of the CA that issues it), not
+			// what ct.MerkleTreeLeafFromChain makes of the submitted chain: the model then stores,
+			// signs and looks up the RFC 6962 leaf, and the implementation is compared with that
 			pe := "None"
 			if pre && sb.sub.pre {
-				leaf, err := ct.MerkleTreeLeafFromChain(sb.chainP, ct.PrecertLogEntryType, 0)
-				if err == nil {
-					pe = lib.Some(lib.Pair(lib.Hex(leaf.TimestampedEntry.PrecertEntry.IssuerKeyHash[:]), lib.Hex(leaf.TimestampedEntry.PrecertEntry.TBSCertificate)))
-				}
+				pe = lib.Some(lib.Pair(lib.Hex(sb.sub.refIKH), lib.Hex(sb.sub.refTBS)))
 			}
 			// SHA-256 of the certificate (the identity hash the front end computes)
 			h.log.H.Sum(sb.sub.der)
@@ -1159,6 +1584,16 @@ func (h *hist) emit(caseNo int) lib.Case {
 			}
 		case ct.GetSTHPath:
 			cop = "CGetSTH"
+			if ex.signFailed {
+				// the harness made the signer fail during this request: the model answers from the
+				// cache or with an error, and leaves the cache alone
+				cop = "CGetSTHSignFail"
+				in["signer"] = "fails"
+				h.tagf("op:get-sth-signer-fails")
+				if ex.status == 200 {
+					h.fail("get-sth answered 200 although its signer call failed")
+				}
+			}
 			if ex.status == 200 {
 				var rsp ct.GetSTHResponse
 				if err := json.Unmarshal(ex.body, &rsp); err != nil {
@@ -1333,6 +1768,7 @@ func main() {
 	w.untrusted = pki.Issue(pki.Opts{CN: "c06 untrusted root", IsCA: true, KeyIdx: 4}, nil)
 
 	wr := lib.NewWriter(header, 1)
+	defer wr.Guard()
 	nseq := lib.Count(10, 40)
 	nconc := nseq / 2
 	for i := 0; i < nseq; i++ {
